@@ -110,7 +110,7 @@ def _pose(t, vals):
 def reference_parse(text, custom):
     """text -> (workload spec, n unrecognised non-blank lines, max |angle| seen).  Independent of graphslam."""
     vertices, edges, params = [], [], {}
-    junk = 0
+    junk = []
     big = 0.0
     lines = LINE_SPLIT.split(text)
     for line in lines:
@@ -118,7 +118,7 @@ def reference_parse(text, custom):
             continue
         head, _, rest = line.partition(" ")
         if not _:
-            junk += 1
+            junk.append(line)
             continue
         f = rest.split()
         try:
@@ -166,7 +166,7 @@ def reference_parse(text, custom):
             elif head == "PARAMS_SE3OFFSET":
                 params[("PARAMS_SE3OFFSET", int(f[0]))] = {"key": ["PARAMS_SE3OFFSET", int(f[0])], "v": _pose("SE3", [float(x) for x in f[1:8]])}
             else:
-                junk += 1
+                junk.append(line)
         except (IndexError, ValueError, KeyError) as e:  # the generator only emits well-formed lines
             raise AssertionError("reference parser: malformed line %r (%s)" % (line, e))
     return {"vertices": vertices, "edges": edges, "params": list(params.values())}, junk, big
@@ -203,6 +203,11 @@ def gen_file(rng):
         return fmt_int(rng, i, exotic)
 
     def tri(n):
+        if rng.random() < 0.25:
+            # the loader must carry whatever numbers are on the line: tiny, huge, zero and negative entries included
+            return [simio.wide_float(rng, rng.choice(["tiny", "huge", "zero", "unit", "ugly", "int"])) if rng.random() < 0.5
+                    else rng.choice([1e-17, -5e-18, 3e-300, 5e-324, 1e-16, 2.220446049250313e-16, 1e300, 0.0, -0.0, 1.0])
+                    for _ in range(n * (n + 1) // 2)]
         m = simio.spd_information(rng, n, True, 1e6)
         return [float(m[i][j]) for i in range(n) for j in range(i, n)]
 
@@ -287,6 +292,7 @@ def gen_file(rng):
         "vertex_se2 3 1.0 2.0 0.5", "VERTEX_SE2", "EDGE_SE2", "VERTEX_XYZ 4 1 2 3", "PARAMS_CAMERAPARAMETERS 0 1 2 3", "This line is not supported",
         "VERTEX_SE3 5 0 0 0 0 0 0 1", "EDGE_SE3 0 1 0 0 0 0 0 0 1", "PARAMS_SE3OFFSET_X 1 0 0 0 0 0 0 1", "EDGE_SE2:QUAT 0 1 1 2 3",
         "TUTORIAL_PARAMS 0", "VERTEX_POINT_XY 2 0.5 0.5", "EDGE_DISTANCE_SE3 1 2 3.0 1.0", "EDGE_PRIOR 1 2 3",
+        "# another comment", "# a third comment", "FIX 1", "FIX 2", "VERTEX_SE2X 8 0.0 1.0 2.0", "PARAMS_CAMERAPARAMETERS 1 4 5 6",
     ]
     blank_pool = ["", "", "   ", " ", "\t"]
     lines = []
@@ -520,12 +526,20 @@ class C14(OptEngineBase):
                 if lk in ("default", "debug_level", "raising_handler"):
                     res.n_checks += 1
                     res.probe("warnings_counted")
-                    if junk == 0 and (recs or others):
+                    nj = len(junk)
+                    if nj == 0 and (recs or others):
                         V("spurious-warning", "no unrecognised line in the file but %d warning(s) were logged, e.g. %r" % (len(recs) + len(others), (recs + others)[0][2]))
                         break
-                    if junk > 0 and not (1 <= len(recs) <= junk):
-                        V("warning-count", "%d unrecognised non-blank lines, %d warnings logged" % (junk, len(recs)))
+                    if nj > 0 and not (1 <= len(recs) <= nj):
+                        V("warning-count", "%d unrecognised non-blank lines, %d warnings logged" % (nj, len(recs)))
                         break
+                    if 0 < len(recs) < nj:
+                        # fewer warnings than skipped lines is only acceptable if every skipped line is still reported by its text
+                        missing = [j for j in junk if not any(j.strip() in r[2] for r in recs)]
+                        if missing:
+                            V("warning-missing", "%d unrecognised non-blank lines but only %d warnings, and %d skipped line(s) are mentioned in none of them, e.g. %r"
+                              % (nj, len(recs), len(missing), missing[0]))
+                            break
                 else:
                     res.probe("logger_suppressed")
                 # all entry points / schedules agree
